@@ -163,6 +163,8 @@ def imread_from_npz(path: Union[Path, list[Path]]) -> darsia.Image:
         image = darsia.OpticalImage(array, **metadata)
     else:
         image = darsia.Image(array, **metadata)
+    if "original_dtype" in npzdata:
+        image.original_dtype = np.dtype(str(npzdata["original_dtype"]))
     return image
 
 
